@@ -504,7 +504,7 @@ fn main() -> std::process::ExitCode {
         "C20",
         "each case picks one of the 7 architectures and 0-12 random instruction strings; ALL descriptor relations of that architecture are evaluated against the scalar universe (complete register sweeps: every register index in every operand position of mov/add/load/store/push/pop/SIMD templates, plus the case's random strings) and against psABI tables; the descriptor space itself is finite and fully enumerated in every run; non-trivial = every relation evaluated with a non-empty universe; distinct = (architecture, universe size, extras bucket)",
         Box::new(|_t: Tier| from_tape(80, decode)),
-        |t| t.pick(7_000, 300_000),
+        |t| t.pick(70_000, 1_000_000),
         check,
     );
     spec.render = render;
